@@ -50,7 +50,15 @@ func (r *yieldRewriter) rewriteRanges(block *ast.BlockStmt) {
 			case *types.Array:
 				// typing workaround for abstract generic array iter
 				// type can't be infered from array, so we wrap it with slice
-				typeInfered := &ast.SliceExpr{X: n.X}
+				arr := n.X
+				if tv, ok := r.pkg.TypesInfo.Types[n.X]; ok && !tv.Addressable() {
+					// an array value that is not addressable (call result, composite literal)
+					// can not be sliced: range over a copy held in a variable
+					tmp := X.Ident(r.gensym(cstArrayVar))
+					c.InsertBefore(X.Define(tmp, n.X))
+					arr = tmp
+				}
+				typeInfered := &ast.SliceExpr{X: arr}
 				do(cstNewSliceIter, typeInfered)
 			case *types.Slice:
 				do(cstNewSliceIter, n.X)
